@@ -20,6 +20,16 @@ def sha(d):
     return hashlib.sha1(b"content %d" % d).digest()
 
 
+# A Content with data id d (odd) has the bytes of class d // LEAF_CLASS and the permissions
+# PERMS[d % 3]: 3 and 5 are one blob under two modes, 7, 9 and 11 another under three — sha1_git
+# does not cover the permissions, the parent Directory's hash does.
+LEAF_CLASS = 6
+
+
+def csha(d):
+    return sha(d // LEAF_CLASS * LEAF_CLASS + 1)
+
+
 def classes():
     from swh.model.from_disk import Content, DentryPerms, Directory
     from swh.model.merkle import MerkleLeaf, MerkleNode
@@ -35,8 +45,8 @@ def classes():
             return "N%d[]" % self.data
 
     def mk_content(d):
-        return Content({"sha1_git": sha(d), "perms": PERMS[d % 3], "length": 0, "status": "visible",
-                        "sha1": sha(d), "sha256": b"0" * 32, "blake2s256": b"1" * 32, "did": d})
+        return Content({"sha1_git": csha(d), "perms": PERMS[d % 3], "length": 0, "status": "visible",
+                        "sha1": csha(d), "sha256": b"0" * 32, "blake2s256": b"1" * 32, "did": d})
 
     def mk_dir(d):
         return Directory({"name": b"n%d" % d, "did": d})
@@ -70,13 +80,12 @@ class World:
 
         d, ks = t
         if self.kind == "A":
-            return "N%d[%s]" % (d, ",".join("%s:%s" % (k, self.ev(v)) for k, v in ks))
+            return "N%d[%s]" % (d, ",".join("%s:%s" % (k, self.ev(v)) for k, _isdir, _cd, v in ks))
         if d % 2 == 1:
-            return sha(d)
+            return sha(d)  # d is already the class representative (the driver's q)
         ents = []
-        for k, v in ks:
-            cd = v[0]
-            if cd % 2 == 1:
+        for k, isdir, cd, v in ks:
+            if not isdir:
                 ents.append(model.DirectoryEntry(name=bytes.fromhex(k), type="file", perms=self.PERMS[cd % 3], target=self.ev(v)))
             else:
                 ents.append(model.DirectoryEntry(name=bytes.fromhex(k), type="dir", perms=DentryPerms.directory, target=self.ev(v)))
@@ -253,7 +262,8 @@ class World:
             r.shuffle(edges)
             for (p0, k, ci) in edges[:12]:
                 c = self.nodes[ci]
-                twins = [j for j in range(n) if j != ci and type(self.nodes[j]) is type(c) and self.nodes[j] == c and self.level[p0] > self.level[j]]
+                same = lambda a, b: a == b or (self.kind == "B" and isinstance(a, self.Content) and a.data["sha1_git"] == b.data["sha1_git"])
+                twins = [j for j in range(n) if j != ci and type(self.nodes[j]) is type(c) and same(self.nodes[j], c) and self.level[p0] > self.level[j]]
                 if twins:
                     j = r.choice(twins)
                     return ["upd", p0, [[k.hex(), j]]] if r.random() < 0.7 else ["set", p0, j, k.hex()]
